@@ -133,6 +133,21 @@ CHECKS = {
             "gob carries no integrity protection: altered bytes outside the key-relevant fields legitimately give a working "
             "connection, so 'cannot authenticate records' is judged as 'the peer accepts nothing that was not written'.",
             "DESIGN.md §4 C19"),
+    "C20": ("exploration",
+            "runtime monitoring of DTLS 1.3 sessions with concurrent writers and UpdateKeys callers under injected loss, "
+            "duplication and delay in virtual time, and under the Go race detector on the real scheduler; the complete wire log "
+            "is decrypted by the independent reference implementation along the RFC 8446 traffic-update chain",
+            "Scripts: 3 suites x {no CID, CID} x {no faults, drops, drops+duplicates, drops+duplicates+delays, 4 s blackhole of "
+            "the ACK direction} x {1, 3, 6} UpdateKeys per side x 1-4 writers per side x peer update requested "
+            "never/always/alternately (90 quick, 1080 thorough) plus 24/400 race-detector runs. Every emitted protected record "
+            "must decrypt under generation k >= 0 of the chain from that side's application_traffic_secret_0, generations never "
+            "decrease in emission order, no (generation, seq) repeats; every payload is read at most once, unmodified, only if "
+            "written, and is read when its datagram was delivered at once; UpdateKeys returns nil only with a peer datagram "
+            "delivered during the call and a write generation advanced; a record forged under the next, unauthorised "
+            "generation is not delivered.",
+            "All earlier read generations are retained by this implementation, so the 'no longer retains' clause has no "
+            "observable instance; schedules are sampled, not enumerated.",
+            "DESIGN.md §4 C20"),
     "C18": ("exploration",
             "runtime law monitoring of every codec: decode/re-encode/decode fixed-point, value equality, trailing-junk and "
             "truncation laws, datagram partition law, on harvested real encodings, their systematic mutations and generated values",
